@@ -18,6 +18,10 @@ import (
 
 var VerifDir = envOr("VERIF_DIR", "/verif")
 
+// RepoDir is the tree under verification: /repo, unless VERIF_REPO names a scratch copy (used to
+// try a property-breaking change without touching /repo; see altcheck.sh).
+var RepoDir = envOr("VERIF_REPO", "/repo")
+
 func envOr(k, d string) string {
 	if v := os.Getenv(k); v != "" {
 		return v
